@@ -109,6 +109,15 @@ M = [
  ("update_key_helper_skips_first_note", "crates/liwe/src/graph.rs",
   "        if id.is_some() {\n            self.arena.delete_branch(*id.unwrap());\n        }\n\n        self.from_markdown(key, content, MarkdownReader::new());\n\n        self\n    }\n",
   "        if id.is_some() {\n            let old_root = *id.unwrap();\n            self.drop_old_version(old_root);\n        }\n\n        self.from_markdown(key, content, MarkdownReader::new());\n\n        self\n    }\n\n    fn drop_old_version(&mut self, root: NodeId) {\n        if root > 0 {\n            self.arena.delete_branch(root);\n        }\n    }\n", {"C04": 1}),
+ ("process_blocks_forgets_set_insert", "crates/liwe/src/graph/sections_builder.rs",
+  "        self.builder.set_insert(true);\n        let first_header = first_header(range.clone(), content);", "        let first_header = first_header(range.clone(), content);", {"C20": 1, "C01": 1}),
+ ("process_blocks_blocks_after_sections", "crates/liwe/src/graph/sections_builder.rs",
+  "        for i in pre_header_range.clone() {\n            self.block(&content[i]);\n        }\n\n        if first_header_level(range.clone(), content).is_none() {\n            return;\n        }\n",
+  "        if first_header_level(range.clone(), content).is_none() {\n            for i in pre_header_range.clone() {\n                self.block(&content[i]);\n            }\n            return;\n        }\n", {"C07": 1, "C01": 1}),
+ ("process_blocks_header_into_block", "crates/liwe/src/graph/sections_builder.rs",
+  "        let pre_header_range = range.start..first_header.unwrap_or(range.end);", "        let pre_header_range = range.start..first_header.map(|h| h + 1).unwrap_or(range.end);", {"C03": 1, "C07": 1}),
+ ("benign_process_blocks_local", "crates/liwe/src/graph/sections_builder.rs",
+  "        let pre_header_range = range.start..first_header.unwrap_or(range.end);", "        let pre_header_end = first_header.unwrap_or(range.end);\n        let pre_header_range = range.start..pre_header_end;", {"C07": 0, "C20": 0}),
  ("update_key_skips_blank", "crates/liwe/src/graph.rs",
   "        self.from_markdown(key, content, MarkdownReader::new());\n\n        self", "        if !content.is_empty() {\n            self.from_markdown(key, content, MarkdownReader::new());\n        }\n\n        self", {"C20": 1, "C04": 1}),
  # benign refactorings: must not alarm
